@@ -1,11 +1,22 @@
 import IndicatifModel.Generated.Keys
 /-!
-# C11 — every documented placeholder key is implemented (regenerated tables)
+# C11 — placeholders: every documented key is implemented, and computes what the documentation says
 
-`Generated/Keys.lean` is rewritten from `src/lib.rs` and `src/style.rs` on every run, so these
-theorems are re-checked against what the code says now: a documented key that loses its arm in
-`format_state` (it would silently render as nothing), or a new key documented but not implemented,
-breaks `C11_keys_total`.
+`Generated/Keys.lean` is rewritten from `src/lib.rs` and `src/style.rs` on every run (`tools/gen_keys.py`), so
+these theorems are re-checked against what the code says now.
+
+* `C11_keys_total` / `_documented` / `_nodup`: the documented keys are exactly the arms of `format_state`.
+* `C11_arms_as_documented`: for every documented key the arm takes the value the documentation names
+  (position, length, completed fraction, elapsed / remaining / total time, rate, message, prefix, tick string)
+  and passes it through the public formatter the documentation names, with the documented flags (compact
+  durations, `/s`, percentage digits). An arm that reads the wrong value (`{bytes}` from the length), uses
+  another formatter or drops a flag breaks this theorem before any test runs.
+* `C11_missing_length_is_position`: `len` is `state.len().unwrap_or(pos)` and `pos` is `state.pos()`.
+
+What the values *are* at draw time (getter = rendered value at the same instant, for every state and
+history) is the part decided by the correspondence stream: 6 000 key × state × history cases compare the
+rendered text with the public getters passed through the public formatters, and the `C11T` stream checks
+custom trackers.
 -/
 namespace IndicatifModel.Generated
 
@@ -17,5 +28,51 @@ theorem C11_keys_documented : ∀ k ∈ implementedKeys, k ∈ documentedKeys :=
 
 /-- no key is listed twice (a duplicated arm would be dead code) -/
 theorem C11_keys_nodup : implementedKeys.Nodup ∧ documentedKeys.Nodup := by decide
+
+/-- the documentation of the keys (`src/lib.rs`, "The following keys exist"), as a table: which value, which
+public formatter, which flags -/
+def documentedArms : List Arm := [
+  { key := [98, 97, 114], src := .fraction, wrap := .bar, alt := false, perS := false, percentDigits := none } /- bar: a progress bar of the completed fraction -/,
+  { key := [119, 105, 100, 101, 95, 98, 97, 114], src := .wideBar, wrap := .plain, alt := false, perS := false, percentDigits := none } /- wide_bar: like bar, filling the remaining space -/,
+  { key := [115, 112, 105, 110, 110, 101, 114], src := .tick, wrap := .plain, alt := false, perS := false, percentDigits := none } /- spinner: the current tick string -/,
+  { key := [112, 114, 101, 102, 105, 120], src := .prefix, wrap := .plain, alt := false, perS := false, percentDigits := none } /- prefix: the prefix -/,
+  { key := [109, 115, 103], src := .message, wrap := .plain, alt := false, perS := false, percentDigits := none } /- msg: the message -/,
+  { key := [119, 105, 100, 101, 95, 109, 115, 103], src := .wideMsg, wrap := .plain, alt := false, perS := false, percentDigits := none } /- wide_msg: like msg, filling the remaining space -/,
+  { key := [112, 111, 115], src := .pos, wrap := .plain, alt := false, perS := false, percentDigits := none } /- pos: the position as an integer -/,
+  { key := [104, 117, 109, 97, 110, 95, 112, 111, 115], src := .pos, wrap := .humanCount, alt := false, perS := false, percentDigits := none } /- human_pos: the position with thousands separators -/,
+  { key := [108, 101, 110], src := .len, wrap := .plain, alt := false, perS := false, percentDigits := none } /- len: the length as an integer -/,
+  { key := [104, 117, 109, 97, 110, 95, 108, 101, 110], src := .len, wrap := .humanCount, alt := false, perS := false, percentDigits := none } /- human_len: the length with thousands separators -/,
+  { key := [112, 101, 114, 99, 101, 110, 116], src := .fraction, wrap := .plain, alt := false, perS := false, percentDigits := some 0 } /- percent: percentage as an integer -/,
+  { key := [112, 101, 114, 99, 101, 110, 116, 95, 112, 114, 101, 99, 105, 115, 101], src := .fraction, wrap := .plain, alt := false, perS := false, percentDigits := some 3 } /- percent_precise: percentage with 3 fraction digits -/,
+  { key := [98, 121, 116, 101, 115], src := .pos, wrap := .humanBytes, alt := false, perS := false, percentDigits := none } /- bytes: the position as bytes -/,
+  { key := [116, 111, 116, 97, 108, 95, 98, 121, 116, 101, 115], src := .len, wrap := .humanBytes, alt := false, perS := false, percentDigits := none } /- total_bytes: the length as bytes -/,
+  { key := [100, 101, 99, 105, 109, 97, 108, 95, 98, 121, 116, 101, 115], src := .pos, wrap := .decimalBytes, alt := false, perS := false, percentDigits := none } /- decimal_bytes: the position, power-of-10 units -/,
+  { key := [100, 101, 99, 105, 109, 97, 108, 95, 116, 111, 116, 97, 108, 95, 98, 121, 116, 101, 115], src := .len, wrap := .decimalBytes, alt := false, perS := false, percentDigits := none } /- decimal_total_bytes: the length, power-of-10 units -/,
+  { key := [98, 105, 110, 97, 114, 121, 95, 98, 121, 116, 101, 115], src := .pos, wrap := .binaryBytes, alt := false, perS := false, percentDigits := none } /- binary_bytes: the position, power-of-two units -/,
+  { key := [98, 105, 110, 97, 114, 121, 95, 116, 111, 116, 97, 108, 95, 98, 121, 116, 101, 115], src := .len, wrap := .binaryBytes, alt := false, perS := false, percentDigits := none } /- binary_total_bytes: the length, power-of-two units -/,
+  { key := [101, 108, 97, 112, 115, 101, 100, 95, 112, 114, 101, 99, 105, 115, 101], src := .elapsed, wrap := .formattedDuration, alt := false, perS := false, percentDigits := none } /- elapsed_precise: elapsed time as HH:MM:SS -/,
+  { key := [101, 108, 97, 112, 115, 101, 100], src := .elapsed, wrap := .humanDuration, alt := true, perS := false, percentDigits := none } /- elapsed: elapsed time as 42s, 1m -/,
+  { key := [112, 101, 114, 95, 115, 101, 99], src := .perSec, wrap := .humanFloatCount, alt := false, perS := true, percentDigits := none } /- per_sec: steps per second -/,
+  { key := [98, 121, 116, 101, 115, 95, 112, 101, 114, 95, 115, 101, 99], src := .perSecU64, wrap := .humanBytes, alt := false, perS := true, percentDigits := none } /- bytes_per_sec: bytes per second -/,
+  { key := [100, 101, 99, 105, 109, 97, 108, 95, 98, 121, 116, 101, 115, 95, 112, 101, 114, 95, 115, 101, 99], src := .perSecU64, wrap := .decimalBytes, alt := false, perS := true, percentDigits := none } /- decimal_bytes_per_sec: bytes per second, power-of-10 units -/,
+  { key := [98, 105, 110, 97, 114, 121, 95, 98, 121, 116, 101, 115, 95, 112, 101, 114, 95, 115, 101, 99], src := .perSecU64, wrap := .binaryBytes, alt := false, perS := true, percentDigits := none } /- binary_bytes_per_sec: bytes per second, power-of-two units -/,
+  { key := [101, 116, 97, 95, 112, 114, 101, 99, 105, 115, 101], src := .eta, wrap := .formattedDuration, alt := false, perS := false, percentDigits := none } /- eta_precise: remaining time like elapsed_precise -/,
+  { key := [101, 116, 97], src := .eta, wrap := .humanDuration, alt := true, perS := false, percentDigits := none } /- eta: remaining time like elapsed -/,
+  { key := [100, 117, 114, 97, 116, 105, 111, 110, 95, 112, 114, 101, 99, 105, 115, 101], src := .duration, wrap := .formattedDuration, alt := false, perS := false, percentDigits := none } /- duration_precise: extrapolated total duration like elapsed_precise -/,
+  { key := [100, 117, 114, 97, 116, 105, 111, 110], src := .duration, wrap := .humanDuration, alt := true, perS := false, percentDigits := none } /- duration: extrapolated total duration like elapsed -/
+]
+
+def armOf (table : List Arm) (k : List Nat) : Option Arm := table.find? (fun a => a.key == k)
+
+/-- **Every documented key computes what the documentation says**: source value, formatter and flags of
+the arm in `format_state` equal the documented ones. -/
+theorem C11_arms_as_documented : ∀ k ∈ documentedKeys, armOf implementedArms k = armOf documentedArms k ∧ (armOf documentedArms k).isSome := by
+  decide +kernel
+
+/-- the table above lists exactly the documented keys -/
+theorem C11_spec_covers_documented : documentedArms.map (·.key) = documentedKeys := by decide +kernel
+
+/-- **A missing length renders as the position**: the two definitions in front of the match -/
+theorem C11_missing_length_is_position : posIsPosition = true ∧ lenFallsBackToPos = true := by decide
 
 end IndicatifModel.Generated
